@@ -137,18 +137,25 @@ class C38(EngineACheck):
                         # into the known C02 finding, with or without subrun)
                         raises = not raises
                         desc = f"boom raises -> {raises}"
+                # some later executions run with caching switched off (redun run --no-cache):
+                # then nothing at all may be replayed across executions
+                nocache = ex > 0 and ch.coin(0.3, "run-without-cache")
+                rk = {"cache": False} if nocache else None
+                if nocache:
+                    out.probe("executions_without_cache")
                 # direct evaluation of the same program version on an empty backend
                 direct = RawProgram(source(True, salt, raises), limits={"sr": 1})
                 sess.reload(direct)
                 dres = enginea.simulate(ch, direct, db_path=schedsim.fresh_db("direct.db"),
-                                        session=sess)
+                                        session=sess, run_kwargs=rk)
                 prog = RawProgram(source(False, salt, raises), limits={"sr": 1})
                 sess.reload(prog)
                 proglib.reset_hits()
-                res = enginea.simulate(ch, prog, db_path=db, session=sess, backend_in_config=True)
+                res = enginea.simulate(ch, prog, db_path=db, session=sess, backend_in_config=True,
+                                       run_kwargs=rk)
                 w, rec = res.world, res.rec
                 self.fill(out, w, prog, extra_key=str(ex))
-                history.append({"execution": ex, "edit": desc})
+                history.append({"execution": ex, "edit": desc, "cache": not nocache})
                 if res.outcome[0] == "abort":
                     out.violate("C38.terminates", res.outcome[1], {"history": history})
                     break
@@ -161,7 +168,11 @@ class C38(EngineACheck):
                     # Known finding: the call node of a subrun records none of the tasks that ran
                     # inside it, so after an edit of an inner task the (default, shallow) ultimate
                     # reduction of the subrun still replays the old result.
-                    edited = any(h["edit"] != "none" for h in history)
+                    # (the known finding is about replay under default caching; with caching
+                    # switched off there is nothing that may be replayed)
+                    edited = any(h["edit"] != "none" for h in history) and not nocache
+                    if nocache:
+                        sig = sig.replace("family/", "family/no-cache-run/")
                     if edited and got[0] == "v" and want[0] == "v" and len(got[1]) == len(want[1]):
                         diff = [i - 1 for i in range(1, len(got[1])) if got[1][i] != want[1][i]]
 
@@ -171,6 +182,14 @@ class C38(EngineACheck):
                                     and o.get("cache_scope") not in ("NONE", "CSE"))
 
                         if diff and all(replayable(i) for i in diff):
+                            sig = "family/subrun-replayed-after-inner-task-edit"
+                    elif edited and got[0] == "e" and want[0] == "e" and "boom-" in repr(got) \
+                            and "boom-" in repr(want):
+                        # both fail, with the error of different items: an item that fails in
+                        # the direct run was replayed (as a value) by its subrun
+                        if any(wf == "wf_fail" and wrapped and o.get("cache", True) is not False
+                               and o.get("cache_scope") not in ("NONE", "CSE")
+                               for wf, _i, o, wrapped in items):
                             sig = "family/subrun-replayed-after-inner-task-edit"
                     elif edited and got[0] == "e" and want[0] == "v" and "boom-" in repr(got):
                         # the replayed result of the subrun is the error of the earlier version
